@@ -482,8 +482,87 @@ func (g *Gen) rb(c, k string) {
 	g.emit(Line{Op: "rb", Pos: []string{c, k}, Args: [][2]string{{"n", rbNames}}})
 }
 
+// clockProgram stresses the hybrid logical clock: wild clock scripts, draws by "other buckets", restarts.
+func (g *Gen) clockProgram(n int) {
+	g.colls = []string{"c0"}
+	g.keys = []string{"k0", "k1"}
+	for i := 0; i < n; i++ {
+		switch g.r.weighted([]int{30, 45, 15, 10}) {
+		case 0:
+			switch g.r.intn(6) {
+			case 0: // stand still
+			case 1:
+				g.phys = uint64(g.r.intn(1 << 20)) // far in the past
+			case 2:
+				g.phys += uint64(g.r.intn(1 << 30))
+			case 3:
+				g.phys = uint64(1)<<62 + uint64(g.r.intn(1<<20))
+			case 4:
+				if g.phys > 1<<17 {
+					g.phys -= uint64(g.r.intn(1 << 17))
+				}
+			case 5:
+				g.phys = uint64(g.r.intn(70000))
+			}
+			g.emit(Line{Op: "clock", Args: [][2]string{{"t", u(g.phys)}}})
+		case 1:
+			c, k := "c0", pick(g.r, g.keys)
+			var l Line
+			l.Pos = []string{c, k}
+			switch g.r.intn(6) {
+			case 0:
+				l.Op = "set"
+				l.add("exp", "0")
+				l.add("raw", "0")
+				l.add("v", g.jsonBody())
+			case 1:
+				l.Op = "add"
+				l.add("exp", "0")
+				l.add("json", "1")
+				l.add("v", g.jsonBody())
+			case 2:
+				l.Op = "wcas"
+				l.add("exp", "0")
+				l.add("cas", u(g.casArg(c, k)))
+				l.add("opt", "0")
+				l.add("v", g.jsonBody())
+			case 3:
+				l.Op = "delete"
+			case 4:
+				l.Op = "incr"
+				l.add("amt", "1")
+				l.add("def", "5")
+				l.add("exp", "0")
+			case 5:
+				l.Op = "touch"
+				l.add("exp", "0")
+			}
+			res := g.emit(l)
+			g.stats["op:"+l.Op]++
+			g.stats["cell:clock/"+l.Op+"/"+strings.SplitN(strings.TrimPrefix(res, "r="), " ", 2)[0]]++
+			g.rb(c, k)
+		case 2:
+			g.emit(Line{Op: "draw"})
+			g.stats["op:draw"]++
+		case 3:
+			if g.w.kind == "disk" {
+				h := pick(g.r, []uint64{0, 0, 12345, g.phys})
+				g.emit(Line{Op: "restart", Args: [][2]string{{"hlc", u(h)}}})
+				g.stats["op:restart"]++
+			}
+		}
+		g.emit(Line{Op: "lastcas", Pos: []string{"c0"}})
+	}
+}
+
 // program generates one program of n operations under the generator's profile.
 func (g *Gen) program(n int) {
+	if g.profile == "clock" {
+		g.phys = 1 << 20
+		g.now = 1700000000
+		g.clockProgram(n)
+		return
+	}
 	g.phys = 1 << 20
 	g.now = 1700000000
 	g.metaCas = 5000000
